@@ -174,7 +174,9 @@ func (fc *FnCtx) blockingOp(fr *Frame, st *State, reach, what string) {
 	}
 	keys := make([]string, 0, len(st.nbLocks))
 	for k := range st.nbLocks {
-		keys = append(keys, k)
+		if !strings.HasPrefix(k, "W|") {
+			keys = append(keys, k)
+		}
 	}
 	sort.Strings(keys)
 	for _, k := range keys {
@@ -209,6 +211,12 @@ func (fc *FnCtx) lockOp(fr *Frame, st *State, reach string, op string, mu Val, c
 				st.nbLocks[ck+"@"+mu.A.Base] = "true"
 			} else {
 				st.nbLocks[ck+"@"+mu.A.Base] = "false"
+			}
+			// write-lock state (for `wlocked(x)`): changed by Lock/Unlock only
+			if strings.HasSuffix(op, ".Lock") {
+				st.nbLocks["W|"+ck+"@"+mu.A.Base] = "true"
+			} else if strings.HasSuffix(op, ".Unlock") {
+				st.nbLocks["W|"+ck+"@"+mu.A.Base] = "false"
 			}
 		} else if acquire {
 			// acquiring a lock whose sections may block is itself a blocking operation
